@@ -13,7 +13,7 @@ PUZZLES = ["nurikabe", "masyu", "slitherlink", "sudoku", "nurimisaki", "yajilin"
 
 def conditions(tier):
     q = tier == "quick"
-    T = 60 if q else 600
+    T = 100 if q else 900
     cs = []
     dims = [(1, 2), (2, 1), (2, 2), (0, 1), (1, 0), (0, 0)] if q else [(h, w) for h in range(0, 4) for w in range(0, 4)]
     for codec in PUZZLES:
